@@ -98,7 +98,7 @@ class _Monitors:
         # stream consistency: the round's records reach the logger
         return filled
 
-    def check_uncrossed(self, m):
+    def check_uncrossed(self, m, tag=None):
         g = self.g
         bb, sb = m.get_buy_order_book(), m.get_sell_order_book()
         if len(bb) == 0 or len(sb) == 0:
@@ -107,9 +107,9 @@ class _Monitors:
         if b_mkt and s_mkt:
             g.note("post:both-market")      # outside the property's hypothesis
             return
-        g.require(not b_mkt and not s_mkt, "C03.market-order-left-against-limit",
+        g.require(not b_mkt and not s_mkt, tag or "C03.market-order-left-against-limit",
                   "a market order faces a limit order after the round")
-        g.require(m.get_best_buy_price() < m.get_best_sell_price(), "C03.book-still-crossed",
+        g.require(m.get_best_buy_price() < m.get_best_sell_price(), tag or "C03.book-still-crossed",
                   "best bid >= best ask after the round")
         g.note("post:uncrossed-two-sided")
 
